@@ -36,7 +36,7 @@ Record cert := Cert { k_pem : N; k_names : list N; k_rest : N }.
 (** key of the http(s) front maps: [RequestHttpFrontend::to_string]
     ("addr;hostname;{P,R,=}path[;method]", or "Wrong variant of PathRuleKind: .."
     for an unknown kind) — modelled as the tuple it is an injective image of:
-    since /repo 58d6d03 the components escape ';' and the escape character, so
+    since /repo fb79355 the components escape ';' and the escape character, so
     this holds for arbitrary strings (the pools carry such strings). *)
 Definition fkey : Type := (N * N * N * N * option N)%type.
 Definition WRONG : N := 999999.
